@@ -119,6 +119,8 @@ void SocketServer::startLoop()
 			for (int i = 0; i < n; i++)
 			{
 				Socket client = _sockets.activeAt(i).accept();
+				if (client.handle() < 0) // accept failed (e.g. the peer reset the connection first): there is nothing to serve
+					continue;
 				ASL_VERIF_HOOK(30, this, client.handle());
 				++_numClients;
 				if (_sequential) {
